@@ -5,6 +5,7 @@ func init() {
 		ID:    "C08",
 		Title: "Lexing and parsing terminate on every input and end in a program or an error",
 		Rules: []string{
+			"R-LOADREC: the loader functions of the root package do not call each other in a cycle (loading is bounded by the files and the uses in them)",
 			"R-ILLEGAL: the ILLEGAL token for an unknown character is built without consuming input (the parser's only ILLEGAL check is at statement starts; names/keys are taken from the current token unchecked)",
 			"R-NILERR: every `return nil` of a parse function is preceded on all paths by a recorded error (newError, failure edge of an expect function, nil result of a parse function with the same guarantee — greatest fixpoint); parseStr/parseProgram hand out a program only when the parser recorded no error",
 			"R-NILPARSE: in the parser no result of a parse function and no AST-interface parameter is dereferenced without a dominating non-nil test (they are nil after a recorded error)",
@@ -17,6 +18,8 @@ func init() {
 		NotDecided:  "TODO",
 		Assumptions: trustedBase,
 		Run: func(m *Model, s *Sink) {
+			m.RunIllegalTop(s, "R-ILLEGAL")
+			m.RunLoadRecursion(s, "R-LOADREC")
 			m.RunProgress(s, "R-PROGRESS")
 			m.RunDelim(s, "R-DELIM")
 			m.RunTokTable(s, "R-TOKTABLE")
